@@ -49,6 +49,8 @@ var Types = []T{
 	{13, "NSl", "(n 3)", "named-slice", true, false},
 	{14, "NB", "(n 4)", "named-basic", false, true},
 	{15, "uint8", "u8", "basic", true, false},
+	// a type whose Go spelling contains a per cent sign (struct tag): printed types must never end up in a format string
+	{16, "struct{ A int \"cell:\\\"%5d\\\"\" }", "(st int)", "struct", false, false},
 }
 
 // ErrT is a type used where an `error` is expected.
@@ -393,4 +395,16 @@ func mk14(n int) NB              { return NB(n != 0) }
 func ob14(v NB) int              { return ob2(bool(v)) }
 func mk15(n int) uint8           { return uint8(n) }
 func ob15(v uint8) int           { return int(v) }
+func mk16(n int) struct {
+	A int "cell:\"%5d\""
+} {
+	return struct {
+		A int "cell:\"%5d\""
+	}{n}
+}
+func ob16(v struct {
+	A int "cell:\"%5d\""
+}) int {
+	return v.A
+}
 `
